@@ -189,19 +189,32 @@ X_DIRECTED = [
     # palette / sauce / font page swaps and their undo
     ((base_doc(6, 4, [(6, 4, 0, 0, 1, 0, [[A, Bc]])]), 0, 1, 3, 1, [(2, 5)], 2),
      [('pal', [0, 0xAA0000, 0x00AA00]), ('sauce', [2, 80, 25]), ('fontpage', [1]), ('sauce', [0, 0, 0]), ('U', []), ('U', []), ('U', []), ('U', []), ('R', []), ('R', []), ('R', []), ('R', [])]),
-    # known: set font writes the caret's slot, records slot 0
+    # fixed (C08-setfont-records-slot0): set font writes the caret's slot and records the font of THAT slot
     ((base_doc(6, 4, [(6, 4, 0, 0, 1, 0, [])]), 0, 1, 3, 0, [(2, 5)], 2), [('setfont', [7]), ('U', []), ('R', [])]),
-    # known: add font on an occupied slot
+    # fixed (C08-addfont-overwrites-slot): add font on an occupied slot
     ((base_doc(6, 4, [(6, 4, 0, 0, 1, 0, [])]), 0, 1, 3, 0, [(2, 5)], 0), [('addfont', [2]), ('U', []), ('R', [])]),
-    # change font slot onto an occupied slot (from <> 0)
+    # fixed (C08-fontslot-overwrites-slot): change font slot onto an occupied slot (from <> 0)
     ((base_doc(6, 4, [(6, 4, 0, 0, 1, 0, [[enc(65, 7, 0, 2, 0)]])]), 0, 1, 3, 0, [(2, 5), (3, 6)], 0), [('fontslot', [2, 3]), ('U', []), ('R', [])]),
-    # known: resize with a SAUCE record of another size
+    # fixed (C08-resize-rewrites-sauce-size): resize / crop / resize with layers with a SAUCE record of another size
     ((base_doc(6, 4, [(6, 4, 0, 0, 1, 0, [])]), 0, 1, 0, 2, [], 0), [('xresize', [3, 2]), ('U', []), ('R', [])]),
+    ((base_doc(6, 4, [(6, 4, 0, 0, 1, 0, [[A, Bc]])]), 0, 1, 0, 2, [], 0),
+     [('croprect', [1, 0, 4, 3]), ('sauce', [1, 9, 9]), ('resize1', [3, 2]), ('xresize', [5, 5]), ('U', []), ('U', []), ('U', []), ('U', []), ('R', []), ('R', []), ('R', []), ('R', [])]),
+    # set font on an EMPTY caret slot (undo empties it again), with slot 0 removed, and in the modes that write slot 0
+    ((base_doc(6, 4, [(6, 4, 0, 0, 1, 0, [])]), 0, 1, 3, 0, [(2, 5)], 3),
+     [('setfont', [7]), ('saucefont', [1]), ('U', []), ('U', []), ('R', []), ('R', []), ('remfont', [0]), ('setfont', [5]), ('fontpage', [0]), ('setfont', [1]), ('U', []), ('U', []), ('U', []), ('U', [])]),
+    ((base_doc(6, 4, [(6, 4, 0, 0, 1, 0, [])]), 0, 1, 1, 0, [(2, 5)], 2), [('setfont', [7]), ('saucefont', [1]), ('U', []), ('U', []), ('R', []), ('R', [])]),
+    # add font twice onto the same slot, change font slot back and forth over occupied slots, undo everything, redo everything
+    ((base_doc(6, 4, [(6, 4, 0, 0, 1, 0, [[enc(65, 7, 0, 2, 0)]])]), 0, 1, 3, 0, [(2, 5), (3, 6)], 0),
+     [('addfont', [2]), ('addfont', [2]), ('fontslot', [2, 3]), ('fontslot', [3, 2]), ('fontslot', [2, 2]), ('U', []), ('U', []), ('U', []), ('U', []), ('U', []),
+      ('R', []), ('R', []), ('R', []), ('R', []), ('R', []), ('U', []), ('U', []), ('R', []), ('R', [])]),
     # ice / palette modes
     ((base_doc(6, 4, [(6, 4, 0, 0, 1, 0, [[A, Bc, Sp, enc(176, 3, 10, 0, 0), enc(220, 1, 9, 0, 0)]])]), 0, 1, 0, 0, [], 0),
      [('ice', [1]), ('ice', [2]), ('palmode', [2]), ('palmode', [0]), ('palmode', [3]), ('palmode', [1]), ('U', []), ('U', []), ('U', []), ('U', []), ('U', []), ('U', []),
       ('R', []), ('R', []), ('R', []), ('R', []), ('R', []), ('R', [])]),
-    # a scroll over part of the layer width is outside the model (skipped), the whole width is not
+    # fixed (C08-scroll-area-raw-lines): scroll up / down over part of the layer width, one row high and several rows high; the whole width
+    ((base_doc(6, 4, [(6, 4, 0, 0, 1, 0, [[A, Bc, A, Sp, A, Bc], [Bc, A], [A, A, A, Bc, Sp], [Sp, Sp, Bc]])]), 0, 1, 0, 0, [], 0),
+     [('sel', [1, 1, 3, 2, 0]), ('scrup', []), ('scrdown', []), ('sel', [1, 0, 4, 3, 0]), ('scrup', []), ('scrup', []), ('scrdown', []), ('sel', [2, 1, 6, 4, 0]), ('scrdown', []),
+      ('U', []), ('U', []), ('U', []), ('U', []), ('U', []), ('U', []), ('U', []), ('U', []), ('U', []), ('R', []), ('R', []), ('R', []), ('R', []), ('R', []), ('R', []), ('R', []), ('R', []), ('R', [])]),
     ((base_doc(6, 4, [(6, 4, 0, 0, 1, 0, [[A, A, A, A], [Bc]])]), 0, 1, 0, 0, [], 0),
      [('sel', [1, 0, 3, 2, 0]), ('scrup', []), ('scrleft', []), ('scrright', []), ('scrright', []), ('desel', []), ('scrup', []), ('scrdown', []), ('scrdown', []), ('scrleft', []),
       ('U', []), ('U', []), ('U', []), ('U', []), ('U', []), ('U', []), ('U', []), ('R', []), ('R', []), ('R', []), ('R', []), ('R', [])]),
@@ -214,6 +227,12 @@ X_DIRECTED = [
      [('sel', [1, 0, 3, 2, 0]), ('addmask', []), ('sel', [2, 1, 5, 3, 2]), ('addmask', []), ('inverse', []), ('enumsel', [66]), ('erase', []),
       ('sel', [0, 0, 2, 2, 0]), ('addmask', []), ('eraserow', []), ('erasecol_e', []), ('U', []), ('U', []), ('U', []), ('U', []), ('U', []), ('U', []), ('U', []), ('U', []), ('U', []),
       ('R', []), ('R', []), ('R', []), ('R', []), ('R', []), ('R', []), ('R', []), ('R', []), ('R', [])]),
+    # fixed (C08-rowcol-raw-lines): a record that stores whole `lines` vectors re-imposes another stored shape between redo and undo of a row / column record
+    ((base_doc(6, 4, [(6, 4, 0, 0, 1, 0, [])], 0, 0, 2, 1), 0, 1, 0, 0, [], 0),
+     [('jleft', []), ('delcol', []), ('palmode', [0]), ('U', []), ('U', []), ('U', []), ('R', []), ('R', []), ('R', []), ('U', []), ('U', []), ('U', []), ('R', []), ('R', []), ('R', [])]),
+    ((base_doc(6, 4, [(6, 4, 0, 0, 1, 0, [[A, Bc, A]])], 0, 0, 2, 3), 0, 1, 0, 0, [], 0),
+     [('jleft', []), ('delrow', []), ('ice', [0]), ('insrow', []), ('palmode', [0]), ('inscol', []), ('U', []), ('U', []), ('U', []), ('U', []), ('U', []), ('U', []),
+      ('R', []), ('R', []), ('R', []), ('R', []), ('R', []), ('R', []), ('U', []), ('U', []), ('U', []), ('U', []), ('U', []), ('U', [])]),
     # rows and columns with HIDDEN content: the layer stores 4 rows of 6 cells but is 4 x 3, then 3 x 2
     ((base_doc(6, 4, [(4, 3, 0, 0, 1, 0, [[A, Bc, A, Bc, A, Bc], [Bc, A, A, A, A, A], [A, A, Bc, Bc, A, A], [Bc, Bc, Bc, A, A, A]])], 0, 0, 1, 1), 0, 1, 0, 0, [], 0),
      [('lsize', [0, 3, 2]), ('inscol', []), ('delcol', []), ('insrow', []), ('delrow', []), ('caret', [4, 3]), ('inscol', []), ('delrow', []),
